@@ -1,32 +1,103 @@
 /-
-The runner's worker coroutine with the exception classes `_task_wrapper` does NOT handle
-(C17, runner half).  Imports only `Model/RunnerSys.lean`.
+The runner's worker coroutine and the FAILURE CLASSES of a unit (C17, runner half).
+Imports only `Model/RunnerSys.lean`.
 
-`_task_wrapper`, as it is:
+`infretis/asyncrunner.py`, as it is (after the repair "every failure of a unit reaches its future"):
+
+      def _run_unit(task_f, md_item):                      # runs in the pool process
+          try:
+              return task_f(md_item)
+          except StopIteration as exc:
+              raise RuntimeError(f"unit raised {type(exc).__name__}: {exc}") from exc
+          except Exception:
+              raise
+          except BaseException as exc:
+              raise RuntimeError(f"unit raised {type(exc).__name__}: {exc}") from exc
+
+      # _task_wrapper
       try:
-          md_item = await loop.run_in_executor(executor, partial(task_f, md_item))
+          md_item = await loop.run_in_executor(executor, partial(_run_unit, self._task_f, md_item))
           future.set_result(md_item)
       except Exception as e:
           future.set_exception(e)
       queue.task_done()
-`RunnerSys.stepResume w o` is the resume with a result (`Outcome.ok`) or with an exception that
-`except Exception` catches and `set_exception` accepts (`Outcome.exc`).  What else the awaited
-executor future can hand back — observed on the real runner (asyncio, ProcessPoolExecutor, Python 3.12):
 
-* `resumeBase w` — an exception that is NOT an `Exception` (`asyncio.CancelledError`, any other
-  `BaseException` subclass raised by the unit; the pool pickles it back like any exception): the
-  handler does not catch it, the coroutine ends with it, `set_exception` / `task_done` never run:
-  the asyncio task is done (`WPc.crashed`), the unit's future stays PENDING for ever.
-* `resumeExit w` — `SystemExit` / `KeyboardInterrupt` (a unit that calls `sys.exit()`): as above,
-  and asyncio's `Task.__step` re-raises these two out of `run_forever`: the event-loop thread ends,
-  NO coroutine is resumed ever again (`loopDead`), every pending future stays pending.
-* `StopIteration`: asyncio cannot store it in the awaited future (`TypeError` in the done-callback):
-  the worker is never resumed — in this system simply: no `resume` event for that worker.
+`FailClass` = what the unit FUNCTION raised; `converted` = the exception that comes back from the
+executor (`_run_unit`): an ordinary `Exception` unchanged, every other class as a `RuntimeError`
+— always something `except Exception` catches and `Future.set_exception` accepts.  Hence
+`xstep … (resumeFail w c e)` IS `RunnerSys.stepResume w (exc …)` for every class (`toFEv`).
+
+`AsIs` (end of file) is the RECORD of the code before that repair (`partial(self._task_f, md_item)`,
+no conversion), observed on the real runner (asyncio, ProcessPoolExecutor, Python 3.12):
+* `base` (asyncio.CancelledError, any other non-`Exception`): `except Exception` does not catch it,
+  the coroutine ends with it, `set_exception` / `task_done` never run: the asyncio task is done
+  (`WPc.crashed`), the unit's future stays PENDING for ever;
+* `exit` (SystemExit / KeyboardInterrupt): as above, and asyncio's `Task.__step` re-raises these two
+  out of `run_forever`: the event-loop thread ends, NO coroutine is resumed ever again (`loopDead`);
+* `stopIter`: asyncio cannot store it in the awaited future (`TypeError` in the done-callback): the
+  worker is never resumed — no event.
 -/
 import Infretis.Model.RunnerSys
 namespace Infretis.RunnerSysX
 open Infretis.Runner (Outcome Event)
 open Infretis.RunnerSys
+
+/-- class of the exception the unit function raised -/
+inductive FailClass where
+  /-- an `Exception` other than `StopIteration` -/
+  | ordinary
+  | stopIter
+  /-- not an `Exception` (CancelledError, other `BaseException`), except the next two -/
+  | base
+  /-- `SystemExit` / `KeyboardInterrupt` -/
+  | exit
+  deriving Repr, DecidableEq
+
+/-- payload of the exception `_run_unit` raises in the pool process: the unit's own exception for an
+    ordinary one, else the `RuntimeError("unit raised <class>: …")` (one code per class) -/
+def converted : FailClass → Nat → Nat
+  | .ordinary, e => e
+  | .stopIter, _ => 999001
+  | .base, _ => 999002
+  | .exit, _ => 999003
+
+/-- what the awaited executor future hands to `_task_wrapper` when the unit function raised -/
+def runUnit (c : FailClass) (e : Nat) : Outcome := .exc (converted c e)
+
+inductive XEv where
+  /-- an event of `RunnerSys` -/
+  | plain (e : FEv)
+  /-- worker `w`, awaiting its unit, is resumed after the unit function raised class `c` (payload `e`) -/
+  | resumeFail (w : Nat) (c : FailClass) (e : Nat)
+  deriving Repr, DecidableEq
+
+/-- the `RunnerSys` event an event amounts to -/
+def toFEv : XEv → FEv
+  | .plain e => e
+  | .resumeFail w c e => .resume w (runUnit c e)
+
+def isAwaiting : Option WPc → Bool
+  | some (.awaiting _) => true
+  | _ => false
+
+/-- the code as it is -/
+def xstep (s : Sys) : XEv → Option (Sys × List Event)
+  | .plain e => fstep s e
+  | .resumeFail w c e =>
+    if isAwaiting s.pcs[w]? then fstep s (.resume w (runUnit c e)) else none   -- a failure comes back to a worker that awaits
+
+def xrun (s : Sys) : List XEv → Option (Sys × List Event)
+  | [] => some (s, [])
+  | e :: es =>
+    match xstep s e with
+    | none => none
+    | some (s', out) =>
+      match xrun s' es with
+      | none => none
+      | some (s'', out') => some (s'', out ++ out')
+
+/-! ### RECORD: the code before the repair -/
+namespace AsIs
 
 structure XSys where
   s : Sys
@@ -34,37 +105,32 @@ structure XSys where
   loopDead : Bool := false
   deriving Repr, DecidableEq
 
-inductive XEv where
-  /-- an event of `RunnerSys` (results and handled exceptions) -/
-  | plain (e : FEv)
-  /-- worker `w`, awaiting its unit, is resumed with a non-`Exception` exception -/
-  | resumeBase (w : Nat)
-  /-- worker `w`, awaiting its unit, is resumed with `SystemExit` / `KeyboardInterrupt` -/
-  | resumeExit (w : Nat)
-  deriving Repr, DecidableEq
-
-def isResume : FEv → Bool
-  | .resume _ _ => true
+def isResume : XEv → Bool
+  | .plain (.resume _ _) => true
+  | .resumeFail .. => true
   | _ => false
 
-def xstep (x : XSys) : XEv → Option (XSys × List Event)
-  | .plain e =>
-    if isResume e && x.loopDead then none      -- no coroutine runs without the loop
-    else
+def xstep (x : XSys) (ev : XEv) : Option (XSys × List Event) :=
+  if isResume ev && x.loopDead then none      -- no coroutine runs without the loop
+  else
+    match ev with
+    | .plain e =>
       match fstep x.s e with
       | none => none
       | some (s', out) => some ({ x with s := s' }, out)
-  | .resumeBase w =>
-    if x.loopDead then none else
-    match x.s.pcs[w]? with
-    | some (.awaiting _) => some ({ x with s := { x.s with pcs := x.s.pcs.set w .crashed } }, [])
-    | _ => none
-  | .resumeExit w =>
-    if x.loopDead then none else
-    match x.s.pcs[w]? with
-    | some (.awaiting _) =>
-      some ({ s := { x.s with pcs := x.s.pcs.set w .crashed }, loopDead := true }, [])
-    | _ => none
+    | .resumeFail w .ordinary e =>
+      if isAwaiting x.s.pcs[w]? then
+        match fstep x.s (.resume w (.exc e)) with
+        | none => none
+        | some (s', out) => some ({ x with s := s' }, out)
+      else none
+    | .resumeFail _ .stopIter _ => none        -- the worker is never resumed
+    | .resumeFail w .base _ =>
+      if isAwaiting x.s.pcs[w]? then some ({ x with s := { x.s with pcs := x.s.pcs.set w .crashed } }, []) else none
+    | .resumeFail w .exit _ =>
+      if isAwaiting x.s.pcs[w]? then
+        some ({ s := { x.s with pcs := x.s.pcs.set w .crashed }, loopDead := true }, [])
+      else none
 
 def xrun (x : XSys) : List XEv → Option (XSys × List Event)
   | [] => some (x, [])
@@ -77,5 +143,7 @@ def xrun (x : XSys) : List XEv → Option (XSys × List Event)
       | some (x'', out') => some (x'', out ++ out')
 
 def xinit (nw : Nat) : XSys := { s := RunnerSys.init nw }
+
+end AsIs
 
 end Infretis.RunnerSysX
